@@ -767,6 +767,17 @@ impl Monitors {
                     );
                 }
                 self.emap_check(id, idx, e.term, h, prev_term, step);
+                let mut f = Fp::new();
+                f.u(existed as u64)
+                    .u(post.state as u64)
+                    .u((idx <= pre.persisted) as u64)
+                    .u((idx == pre.committed + 1) as u64)
+                    .u((idx < u.offset + 1) as u64)
+                    .u((e.term == post.term) as u64)
+                    .u((e.term > prev_term) as u64)
+                    .u(pre.last_index.saturating_sub(idx).min(6))
+                    .u(op.kind());
+                self.stats.hit("C05", f.get());
             }
             idx += 1;
         }
